@@ -111,7 +111,12 @@ func (w *World) rootLoad(st *State, l *Loc) Term {
 	case "elem":
 		return sel(sel(w.hget(st, w.elemsKeyT(l.rootT)), l.base), l.idx)
 	case "global":
-		return w.hget(st, l.key)
+		t := w.hget(st, l.key)
+		if pred, ok := w.specs.GlobalFacts[l.key]; ok {
+			w.sc.assume(Term{fmt.Sprintf("(%s %s)", pred, t.S), SBool})
+			w.assumption("values read from the package-level variable " + strings.TrimPrefix(l.key, "Glob!") + " satisfy " + pred + " (documented as safe for concurrent use)")
+		}
+		return t
 	}
 	panic("bad loc kind " + l.kind)
 }
